@@ -324,7 +324,7 @@ func typeMembers(tier string, cfg gen.Config) []member {
 		{Kind: "array", Items: &fam.Spec{Kind: "object", Props: []*fam.Prop{{Label: "q", Spec: &fam.Spec{Kind: "integer"}, Required: true}}}},
 		{Kind: "array", Items: &fam.Spec{Kind: "integer", Null: "after"}},
 		// formats the generator has no type for (OpenAPI width hints, e-mail): annotations, the mapping is that of the bare type
-		{Kind: "integer", Format: "int32"}, {Kind: "integer", Format: "int64"}, {Kind: "number", Format: "double"}, {Kind: "string", Format: "email"},
+		{Kind: "integer", Format: "int32"}, {Kind: "integer", Format: "int64"}, {Kind: "number", Format: "double"}, {Kind: "number", Format: "float"}, {Kind: "string", Format: "email"},
 		// the anything-schema ({} / true) as a property and as array items: every JSON value is valid, the Go type is interface{}
 		{Kind: "any"}, {Kind: "array", Items: &fam.Spec{Kind: "any"}},
 	}
@@ -456,6 +456,7 @@ func defaultMembers(tier string, cfg gen.Config) []member {
 		&fam.Spec{Kind: "array", Items: &fam.Spec{Kind: "string"}, Default: "slice", Kw: []string{"minItems"}},
 		&fam.Spec{Kind: "object", Default: "map", Props: []*fam.Prop{{Label: "k", Spec: &fam.Spec{Kind: "string"}}}},
 		&fam.Spec{Kind: "object", AddProps: "string", Default: "map"},
+		&fam.Spec{Kind: "object", AddProps: "object", Default: "mapmap"},
 		&fam.Spec{Kind: "object", Default: "map"}, // a property-less object: a named map type with an object default
 		&fam.Spec{Kind: "string", Enum: "strings", Default: "scalar"},
 	)
